@@ -139,7 +139,7 @@ class C08(Prop):
         "digitize_textize_digitize", "textize_canonical_spelling", "revcomp_spec", "revcomp_involutive",
         "avg_score_is_mean", "avg_score_nonresidue", "expect_score_is_weighted_mean", "count_splits_equally", "degen_set_examples",
         "custom_create_wf", "custom_alphabets_wf", "custom_digitize_textize_digitize",
-        "dsqcat_spec", "dsqcat_appends_digitization", "std_inmap_clean", "sq_text_complement_table", "sq_text_revcomp_agrees", "cdealign_spec", "xdealign_spec", "custom_create_wfdegen", "custom_inmap_ops_keep_degen", "match_formula", "match_easy_cases",
+        "dsqcat_spec", "dsqcat_appends_digitization", "std_inmap_clean", "sq_text_complement_table", "sq_text_revcomp_agrees", "cdealign_spec", "xdealign_spec", "custom_create_wfdegen", "custom_inmap_ops_keep_degen", "match_formula", "match_easy_cases", "setdegeneracy_keeps_ndegen", "avg_scvec_spec", "guess_alphabet_basic",
     )]
     claimed = True
     technique = ("Lean 4 proof: table theorems closed by `decide` over the whole regenerated tables (vs a hand-written IUPAC statement), "
@@ -155,9 +155,9 @@ class C08(Prop):
                   "The hand model is tied to the tree by an exact differential run (all single bytes, random strings up to 10^4, custom alphabets).")
     level_note = ("Trusted: Lean kernel + propext/Classical.choice/Quot.sound; table dumper; fidelity of the hand model is checked (not proved) by the "
                   "differential run; score/count averaging is compared bit-exactly (binary64/binary32) and monitored against the exact mean; "
-                  "esl_abc_GuessAlphabet, EncodeType/DecodeType, ValidateSeq error text, *ScVec wrappers are not modelled; "
-                  "SetDegeneracy keeping ndegen = |set| (needs distinct members, fresh symbol) and the integer rounding of IAvgScore/IExpectScore are tied by the "
-                  "differential run only.")
+                  "esl_abc_GuessAlphabet (model mirrors the double comparisons; only elementary theorems), the *ScVec wrappers, esl_abc_ValidateSeq "
+                  "(status and message) are modelled and tied by the differential run; EncodeType/DecodeType are not modelled; the integer rounding of "
+                  "IAvgScore/IExpectScore is tied by the differential run only.")
     diverge_is_violation = True
     trusted_base = ["table dumper translate/tables_alphabet.py (prints the fields of esl_alphabet_Create() of the working tree)",
                     "hand model of esl_alphabet.c conversion loops and constructors tied by exact differential run (h_alphabet.c, ASan+UBSan)",
@@ -343,6 +343,52 @@ class C08(Prop):
                 ops.append("fcount x=%d wt=%s sc=%s" % (x, fbits(rng.choice([1.0, -1.0, 0.5, dval()])), ",".join(fbits(dval()) for _ in range(K + 1))))
         return ops
 
+    def vec_ops(self, rng, K, Kp, std, pools):
+        """the *ScVec wrappers, esl_abc_ValidateSeq and esl_abc_GuessAlphabet"""
+        ops = []
+        def dv(): return rng.choice([float(rng.randrange(-20, 21)), rng.uniform(-10, 10), 0.0, 1.0])
+        def prob(n):
+            p = [rng.random() + 1e-3 for _ in range(n)]; t = sum(p); return [v / t for v in p]
+        for _ in range(rng.randrange(0, 3)):
+            r = rng.random()
+            if r < 0.2: ops.append("dscvec sc=%s" % ",".join(dbits(dv()) for _ in range(Kp)))
+            elif r < 0.35: ops.append("fscvec sc=%s" % ",".join(fbits(dv()) for _ in range(Kp)))
+            elif r < 0.5: ops.append("dexpvec sc=%s p=%s" % (",".join(dbits(dv()) for _ in range(Kp)), ",".join(dbits(v) for v in prob(K))))
+            elif r < 0.6: ops.append("fexpvec sc=%s p=%s" % (",".join(fbits(dv()) for _ in range(Kp)), ",".join(fbits(v) for v in prob(K))))
+            elif r < 0.8 and std: ops.append("iscvec sc=%s" % ",".join(str(rng.randrange(-1000, 1000)) for _ in range(Kp)))
+            elif std: ops.append("iexpvec sc=%s p=%s" % (",".join(str(rng.randrange(-1000, 1000)) for _ in range(Kp)), ",".join(fbits(v) for v in prob(K))))
+        for _ in range(rng.randrange(0, 3)):
+            n = rng.choice([0, 1, 2, rng.randrange(1, 60)])
+            p2 = dict(pools); p2["high"] = bytes(range(128, 256))
+            sq = self.rand_string(rng, p2, n, True)
+            ops.append("validateseq hex=%s%s" % (hx(sq), " noabc=1" if rng.random() < 0.25 else ""))
+        if rng.random() < 0.5:
+            ops.append("guess ct=%s" % ",".join(map(str, self.rand_counts(rng))))
+        return ops
+
+    def rand_counts(self, rng):
+        """26 letter counts: DNA-like, RNA-like, protein-like, all-N, tiny, borderline 2% contamination"""
+        ct = [0] * 26
+        def put(letters, total):
+            for c in letters: ct[ord(c) - 65] += rng.randrange(0, max(1, 2 * total // max(1, len(letters))) + 1)
+        kind = rng.random()
+        total = rng.choice([0, 5, 10, 11, 12, 50, 100, 1000, 2000, 2001, 5000, 10 ** 6])
+        if kind < 0.25: put("ACGT", total)
+        elif kind < 0.4: put("ACGU", total)
+        elif kind < 0.6: put("ACDEFGHIKLMNPQRSTVWY", total)
+        elif kind < 0.7: ct[13] = total
+        elif kind < 0.85: put("ACDGHKMNRSTVWY", total)          # protein without any amino-only letter
+        else: put(rng.choice(["ACG", "ACGTN", "ACGTX", "ACGTUN", "DHKMRSVWYACGTNX"]), total)
+        # contamination around the 2% threshold, missing canonical residue, stray letters
+        n = sum(ct)
+        r = rng.random()
+        if r < 0.3 and n > 0:
+            extra = rng.choice([n // 50, n // 50 + 1, n // 49, max(0, n // 50 - 1), 1])
+            ct[ord(rng.choice("BJZOXNRYEFIL")) - 65] += extra
+        elif r < 0.4: ct[ord(rng.choice("ACGTU")) - 65] = 0
+        elif r < 0.45: ct[rng.randrange(26)] = rng.choice([-1, -5])
+        return ct
+
     def custom_case(self, rng, hb, idx):
         K = rng.choice([1, 2, 2, 3, 4, 4, 5, 6, 8, 12, 20])
         nd = rng.choice([0, 0, 1, 2, 3, 5])
@@ -402,6 +448,7 @@ class C08(Prop):
                  "ignored": bytes(ignored), "invalid": bytes(c for c in range(1, 128) if c not in allowed), "high": bytes(range(128, 256))}
         ops += self.seq_ops(rng, pools, K, Kp, hb, idx % 50 == 0, False, rng.randrange(2, 10))
         ops += self.score_ops(rng, K, Kp, list(range(K)) + [Kp - 3])
+        ops += self.vec_ops(rng, K, Kp, False, pools)
         return {"name": "custom%d" % idx, "ops": ops, "sticky": 1}
 
     def std_case(self, rng, hb, idx):
@@ -417,6 +464,7 @@ class C08(Prop):
         pools = self.std_pools(name, ignored)
         ops += self.seq_ops(rng, pools, K, Kp, hb, idx % 25 == 0, name in ("dna", "rna"), rng.randrange(3, 14))
         ops += self.score_ops(rng, K, Kp, [x for x in range(Kp) if x < K or K < x < Kp - 2])
+        ops += self.vec_ops(rng, K, Kp, True, pools)
         if rng.random() < 0.5:
             for _ in range(rng.randrange(1, 4)):
                 p2 = dict(pools); p2["ignored"] = b""
@@ -556,6 +604,33 @@ class C08(Prop):
                 tol = (1e-9 if name == "davg" else 1e-4) * (max(abs(v) for v in members) + 1e-300)
                 if math.isnan(got) or (not math.isinf(want) and abs(got - want) > tol):
                     return Failure("monitor", "%s x=%d: %r is not the mean %r over the degeneracy set" % (name, x, got, want))
+            elif name == "validateseq":
+                src = unhex(d["hex"])
+                bad = [c for c in src if (c >= 128 if "noabc" in d else not (c < 128 and a.inmap[c] < a.Kp))]
+                if (l.split()[0] == "einval") != bool(bad) or l.split()[0] not in ("ok", "einval"):
+                    return Failure("monitor", "ValidateSeq says %s, the sequence has %d characters outside the alphabet" % (l.split()[0], len(bad)))
+            elif name in ("dscvec", "fscvec"):
+                un = undbits if name == "dscvec" else unfbits
+                before = [un(v) for v in d["sc"].split(",")]; after = [un(v) for v in l.split()[1].split(",")]
+                for x in range(a.Kp):
+                    if x <= a.K or x >= a.Kp - 2:
+                        if after[x] != before[x] and not (math.isnan(after[x]) and math.isnan(before[x])):
+                            return Failure("monitor", "%s changed the score of code %d (canonical/gap/nonresidue/missing must stay)" % (name, x))
+                    else:
+                        members = [before[y] for y in range(a.K) if a.degen[x][y]]
+                        if members and a.ndegen[x] == len(members):
+                            want = math.fsum(members) / len(members)
+                            if math.isnan(after[x]) or abs(after[x] - want) > 1e-4 * (max(abs(v) for v in members) + 1e-30):
+                                return Failure("monitor", "%s: score of degenerate code %d is %r, mean over its set is %r" % (name, x, after[x], want))
+            elif name == "guess":
+                ct = [int(v) for v in d["ct"].split(",")]; t = int(kv(l).get("type", -1))
+                n = sum(ct)
+                if (l.split()[0] == "ok") != (t != 0): return Failure("monitor", "GuessAlphabet status/type inconsistent: %s" % l)
+                if n <= 10 and t != 0: return Failure("monitor", "GuessAlphabet guesses type %d from %d residues" % (t, n))
+                if t in (1, 2) and min(ct) >= 0 and any(ct[ord(c) - 65] > 0 for c in "EFIJLOPQZ"):
+                    return Failure("monitor", "GuessAlphabet calls a composition with amino-only letters nucleic")
+                if t == 3 and min(ct) >= 0 and n > 10 and not any(ct[ord(c) - 65] > 0 for c in "DEFHIJKLMOPQRSVWYZ"):
+                    return Failure("monitor", "GuessAlphabet calls a composition without any amino-specific letter amino")
             elif name == "match":
                 x, y = int(d["x"]), int(d["y"])
                 got = undbits(l.split()[1])
